@@ -542,8 +542,21 @@ func (st *State) vp(name string, a []Value) Value {
 		st.Asserts++
 		if c.T == nil {
 			if !c.C {
-				_, model := st.Solver.Check(st.local, st.Vars)
-				st.event("assert", label, model)
+				// concretely false: a violation iff this point is reachable
+				r, model := st.Solver.Check(st.local, st.Vars)
+				switch r {
+				case sym.Sat:
+					st.event("assert", label, model)
+				case sym.Unknown:
+					st.event("unknown", "assert "+label, nil)
+				}
+				if st.journalOn > 0 {
+					panic(mergeAbort{"failed assertion inside merge side"})
+				}
+				if r == sym.Unsat {
+					st.Dead = true
+					panic(pathEnd{"infeasible"})
+				}
 			}
 			return nil
 		}
